@@ -183,7 +183,7 @@ func init() {
 			return s
 		}
 		b, _ := st[1].([]value)
-		return string(valueToBytes(b))
+		return fr.i.strFromElems(b)
 	}
 	externals["(*strings.Builder).Len"] = func(fr *frame, args []value) value {
 		st := bufOf(args)
@@ -203,11 +203,15 @@ func init() {
 		if _, ok := st[1].(symStr); ok {
 			return
 		}
+		cur, _ := st[1].([]value)
 		if s, ok := data.(symStr); ok {
+			if el, ok2 := strElems(s); ok2 {
+				st[1] = append(cur, el...)
+				return
+			}
 			st[1] = s
 			return
 		}
-		cur, _ := st[1].([]value)
 		switch d := data.(type) {
 		case string:
 			for k := 0; k < len(d); k++ {
